@@ -184,6 +184,7 @@ def run_dependencies(r):
     check_library_configuration(r, pre)
     check_class_hooks(r, pre, reach | entries)
     check_narrow_casts(r, pre + "NUM", reach | entries)
+    check_skipping_breaks(r, pre + "BREAK", reach | entries)
     if any(q.startswith("pyrepseq.nn.") and q.rsplit(".", 1)[1] in ("_to_triplets", "kdtree", "_kdtree_leven") for q in reach):
         check_start_method(r, pre + "START-METHOD")
         ran.append("start-method")
@@ -558,3 +559,107 @@ def check_class_hooks(r, pre, functions):
             if hooks or meta or decs:
                 what = ", ".join(hooks + [f"metaclass={_ast.unparse(k.value)}" for k in meta] + ["@" + _ast.unparse(d) for d in decs])
                 r.rep.require(False, f"{c}: the class intercepts method definition / attribute access ({what}); what its methods do is not what their bodies say; cannot decide [{pre}CLASSHOOK]")
+
+
+_ORDER_WORDS = ("sort", "unique", "range", "cumsum", "nlargest", "nsmallest", "most_common", "heap", "bisect", "takewhile", "dropwhile", "groupby", "count(")
+
+
+def _effect(st, carried):
+    """does the statement record something that outlives the iteration (adds to a collection, stores into an object, updates a loop-carried
+    name, yields, returns)?"""
+    import ast
+    for n in ast.walk(st):
+        if isinstance(n, (ast.Yield, ast.YieldFrom, ast.Return, ast.AugAssign)):
+            return True
+        if isinstance(n, (ast.Assign, ast.AnnAssign)):
+            for t in (n.targets if isinstance(n, ast.Assign) else [n.target]):
+                for w in ast.walk(t):
+                    if isinstance(w, (ast.Subscript, ast.Attribute)) or (isinstance(w, ast.Name) and w.id in carried):
+                        return True
+        if isinstance(n, ast.Expr) and isinstance(n.value, ast.Call) and isinstance(n.value.func, ast.Attribute) and n.value.func.attr in MUTATORS_:
+            return True
+    return False
+
+
+MUTATORS_ = {"append", "extend", "update", "add", "insert", "setdefault", "appendleft", "push"}
+
+
+def _breaks_in_order(loop):
+    """[(break node, statements executed before it in its iteration, statements that would follow it)] for the breaks of this loop (not of
+    nested loops), in source order."""
+    import ast
+    out = []
+
+    def blocks(st):
+        for f in ("body", "orelse", "finalbody"):
+            b = getattr(st, f, None)
+            if isinstance(b, list) and b and isinstance(b[0], ast.stmt):
+                yield b
+        for h in getattr(st, "handlers", ()):
+            yield h.body
+        for c in getattr(st, "cases", ()):
+            yield c.body
+
+    def visit(block, before, after):
+        for k, st in enumerate(block):
+            pre, post = before + block[:k], block[k + 1:] + after
+            if isinstance(st, ast.Break):
+                out.append((st, pre, post))
+            elif isinstance(st, (ast.For, ast.While, ast.AsyncFor, ast.FunctionDef, ast.AsyncFunctionDef, ast.ClassDef)):
+                continue
+            else:
+                for b in blocks(st):
+                    visit(b, pre, post)
+    visit(loop.body, [], [])
+    return out
+
+
+def check_skipping_breaks(r, rule, functions):
+    """A ``for`` loop that records a result (adds to a collection, stores into a table, updates a running value, yields, returns) and can be
+    left by a ``break`` whose condition is about the current element, before anything of that iteration has been recorded, stops at the first
+    element that meets the condition: the elements after it are never looked at, although nothing says they meet it too.  That is a 'skip
+    this element' (``continue``) written as 'skip the rest'.  It is a defect unless the iteration order is an order on the condition, so -
+    for conditions other than membership tests, which no order makes monotone - loops over a range / a sorted, cumulated or ranked sequence
+    are left to the value rules (which answer 'cannot decide' for them); a break after the iteration's own contribution (a search that stops
+    at its first hit) and a break on the accumulated state alone (a budget, an exhausted frontier) are other idioms and are not touched.
+    Lint: recognisably wrong whatever surrounds it."""
+    from .rules import where_of
+    from .terms import show, strip, walk
+    for q in sorted(functions):
+        if q not in r.P.functions:
+            continue
+        try:
+            s = r.A.summary(q)
+        except AnalysisBroken:
+            continue
+        for lid, lp in dict.items(s.loops):
+            if lp.kind != "for" or not lp.breaks:
+                continue
+            sites = _breaks_in_order(lp.node)
+            if len(sites) != len(lp.breaks):
+                continue
+            carried = set(lp.init)
+            for (node, pre, post), (cond, vals) in zip(sites, lp.breaks):
+                if any(_effect(st, carried) for st in pre) or not any(_effect(st, carried) for st in post):
+                    continue          # this iteration has contributed before the break (a search loop), or nothing is recorded after it
+                c = strip(cond)
+                while head(c) == "un" and c[1] == "not":
+                    c = strip(c[2])
+                member = head(c) == "cmp" and c[1] in ("in", "notin")
+
+                def state_free(t, inside_rhs=False):
+                    t = strip(t)
+                    if head(t) in ("phi", "after") and t[1] == lid:
+                        return inside_rhs
+                    if head(t) == "cmp" and t[1] in ("in", "notin"):
+                        return state_free(t[2], inside_rhs) and state_free(t[3], True)
+                    return all(state_free(x, inside_rhs) for x in t if isinstance(x, tuple)) if isinstance(t, tuple) else True
+                sub = list(walk(("t", cond)))
+                if not any(head(x) == "iter" and x[1] == lid for x in sub) or not state_free(cond):
+                    continue          # not about the current element / about the accumulated state
+                if not member and any(w in show(lp.iterable, 100000) for w in _ORDER_WORDS):
+                    continue
+                r.rep.ob(rule, q, False, "a loop that records its result looks at every element of what it iterates over",
+                         where_of(r.P, s.func, node), expected="an element that is filtered out is skipped (continue); the remaining elements are still processed",
+                         found=f"break when {show(cond, 100)}: the elements of {show(lp.iterable, 60)} after the first such element are never processed, and the iteration order is not an order on that condition",
+                         key=f"skipping break {q.rsplit('.', 1)[1]} {show(cond, 80)}", lint=True)
